@@ -8,140 +8,6 @@ import (
 	"osmcheck/core"
 )
 
-// ---------------------------------------------------------------- facts with helper expansion
-
-type c15Fact struct {
-	env  *c15Env
-	expr ast.Expr
-	val  bool
-	pos  token.Pos // position of the test in the function whose CFG established the fact
-}
-
-// expandFact decomposes "e is val" (written in env.fn) into atomic facts: connectives as splitFacts does, boolean
-// locals with a single pure definition, bound boolean parameters, and calls of single-expression helpers.
-func (w *c15World) expandFact(env *c15Env, e ast.Expr, val bool, pos token.Pos, depth int, out *[]c15Fact) {
-	e = ast.Unparen(e)
-	if depth > 10 {
-		return
-	}
-	switch x := e.(type) {
-	case *ast.UnaryExpr:
-		if x.Op == token.NOT {
-			w.expandFact(env, x.X, !val, pos, depth+1, out)
-			return
-		}
-	case *ast.BinaryExpr:
-		if (x.Op == token.LAND && val) || (x.Op == token.LOR && !val) {
-			w.expandFact(env, x.X, val, pos, depth+1, out)
-			w.expandFact(env, x.Y, val, pos, depth+1, out)
-			return
-		}
-		if x.Op == token.LAND || x.Op == token.LOR {
-			return // a false conjunction / true disjunction says nothing about its parts
-		}
-	case *ast.Ident:
-		ob := objOf(w.info, x)
-		env = env.scope(ob)
-		if b, ok := env.lookup(ob); ok {
-			w.expandFact(b.env, b.expr, val, pos, depth+1, out)
-			return
-		}
-		if d := env.fn.singleDef(ob); d != nil && w.pureExpr(d, 0) {
-			w.expandFact(env, d, val, pos, depth+1, out)
-			return
-		}
-	case *ast.CallExpr:
-		if f, ce := w.calleeOf(env, x); f != nil {
-			if ret := singleReturnExpr(f.fi); ret != nil {
-				w.expandFact(ce, ret, val, pos, depth+1, out)
-				return
-			}
-		}
-	}
-	*out = append(*out, c15Fact{env: env, expr: e, val: val, pos: pos})
-}
-
-// factsFor returns the expanded facts that hold at pos in env.fn.
-func (w *c15World) factsFor(env *c15Env, pos token.Pos) []c15Fact {
-	var out []c15Fact
-	for _, gf := range factsAtPos(w.info, env.fn.g, env.fn.dom, pos) {
-		w.expandFact(env, gf.expr, gf.val, gf.expr.Pos(), 0, &out)
-	}
-	return out
-}
-
-// inRangeFact finds a fact that establishes ip < len(cp): `(I < len(C))` true or `(len(C) <= I)` false in any spelling.
-func (w *c15World) inRangeFact(facts []c15Fact, ip, cp *c15Path) *c15Fact {
-	for i := range facts {
-		f := &facts[i]
-		l, op, r, ok := cmpNorm(f.expr)
-		if !ok {
-			continue
-		}
-		var I, C ast.Expr
-		cenv := f.env
-		switch {
-		case op == token.LSS && f.val:
-			var rx ast.Expr
-			cenv, rx = w.resolveExpr(f.env, r)
-			I, C = l, lenCallArg(w.info, rx)
-		case op == token.LEQ && !f.val:
-			var lx ast.Expr
-			cenv, lx = w.resolveExpr(f.env, l)
-			I, C = r, lenCallArg(w.info, lx)
-		}
-		if C == nil {
-			continue
-		}
-		if w.pathOf(f.env, I, false).eq(ip) && w.pathOf(cenv, C, false).eq(cp) {
-			return f
-		}
-	}
-	return nil
-}
-
-// changedBetween: an assignment in env.fn between the two positions whose target is the root variable, a prefix or
-// the whole of one of the paths (aliases are resolved: a single-definition alias is not itself a change).
-func (w *c15World) changedBetween(env *c15Env, paths []*c15Path, from, to token.Pos) string {
-	what := ""
-	hit := func(lp *c15Path) bool {
-		if lp == nil {
-			return false
-		}
-		for _, p := range paths {
-			if p != nil && len(lp.steps) <= len(p.steps) && lp.eq(p.prefix(len(p.steps)-len(lp.steps))) {
-				return true
-			}
-		}
-		return false
-	}
-	ast.Inspect(env.fn.fi.Decl.Body, func(n ast.Node) bool {
-		if what != "" {
-			return false
-		}
-		switch x := n.(type) {
-		case *ast.AssignStmt:
-			if x.Pos() < from || x.Pos() > to {
-				return true
-			}
-			for _, l := range x.Lhs {
-				if o := objOf(w.info, l); o != nil && env.fn.singleDef(o) != nil {
-					continue // definition of an alias
-				}
-				if hit(w.pathOf(env, l, true)) {
-					what = src(w.r.P.Fset, x)
-				}
-			}
-		case *ast.IncDecStmt:
-			if x.Pos() >= from && x.Pos() <= to && hit(w.pathOf(env, x.X, true)) {
-				what = src(w.r.P.Fset, x)
-			}
-		}
-		return true
-	})
-	return what
-}
-
 // callSites lists the static calls of f in package osm.
 type c15CallSite struct {
 	caller *c15Fn
@@ -200,6 +66,9 @@ func (w *c15World) proveInRange(env *c15Env, pos token.Pos, container, index ast
 			}
 			return "unreachable from the entry of " + f.name() + " when evaluated with `" + src(P.Fset, index) + " >= len(" + src(P.Fset, container) + ")`", ""
 		}
+	}
+	if wf := w.wrappingFact(w.factsFor(env, pos), ip, cp); wf != nil {
+		return "", "the controlling test `" + src(P.Fset, wf.expr) + "` (" + P.Rel(wf.expr.Pos()) + ") compares the index, converted to an unsigned type, with len-1: for an empty list len-1 wraps to the largest value and every index passes, so it does not establish `" + src(P.Fset, index) + " < len(" + src(P.Fset, container) + ")`"
 	}
 	if f.fi.Obj.Exported() || depth >= 2 || env.parent != nil {
 		return "", "no controlling test establishes `" + src(P.Fset, index) + " < len(" + src(P.Fset, container) + ")`"
@@ -336,17 +205,25 @@ func c15U3(r *core.R) {
 		for _, ord := range h.ords {
 			o := w.oracleFor(h, ord)
 			o.rng = -1
-			wk := w.walk(l.entry, 0, c15WalkOpt{env: site.env, loop: l, oracle: o})
+			wk := w.walk(l.entry, 0, c15WalkOpt{env: site.env, loop: l, oracle: o, follow: true})
+			returns, implicit := wk.returns, wk.implicit
+			var nonNil types.Object
+			if wk.done && wk.after != nil && wk.after.exitErr != nil {
+				// left through a guard variable / break with the error pending: "err = X; leave; return err"
+				returns = append(append([]*ast.ReturnStmt{}, returns...), wk.after.returns...)
+				implicit = implicit || wk.after.implicit
+				nonNil = wk.after.exitErr
+			}
 			switch {
 			case wk.head:
 				bad = "the scan goes on with the next update"
-			case wk.done || wk.escape != nil:
+			case wk.escape != nil || (wk.done && nonNil == nil):
 				bad = "the loop is left without an error"
-			case wk.implicit:
+			case implicit:
 				bad = "the function ends without an error"
 			}
-			for _, ret := range wk.returns {
-				if w.retKind(l.fn, ret) != c15RetFailure {
+			for _, ret := range returns {
+				if !w.retFails(l.fn, ret, nonNil) {
 					bad = "`" + src(r.P.Fset, ret) + "` (" + r.P.Rel(ret.Pos()) + ") may return a nil error"
 				} else if ret0 == nil {
 					ret0 = ret
